@@ -1126,6 +1126,37 @@ def run_rules(m, r):
     nh = env_d.get("next_hop")
     r.check(nh is not None and ast.unparse(nh) == "self._neighbor_cache.get(route_entry.next_hop_ip)", "R20.7", fn(del_rt), "the count changed is that of the deleted route's next hop", m.pos(del_rt), ast.unparse(nh) if nh is not None else "?", "next_hop is not looked up by the deleted route's next hop")
 
+    # ------------------------------------------------------------------ R20.9
+    # the BESS wrappers retry and, when every attempt failed, raise (for … else: raise): the loop is left by
+    # `break` only on the success branch of the try — a break in an except/finally handler skips the raise and
+    # the failure is reported as success (the controller then counts a route that was never installed)
+    n_loops = 0
+    for name, f in m.classes[BC].items():
+        for loop in [n for n in ast.walk(f) if isinstance(n, ast.For) and any(isinstance(x, ast.Raise) for st in n.orelse for x in ast.walk(st))]:
+            n_loops += 1
+            for brk in [x for st in loop.body for x in ast.walk(st) if isinstance(x, ast.Break)]:
+                tr = enclosing(brk, ast.Try)
+                in_else = tr is not None and any(brk in ast.walk(st) for st in tr.orelse)
+                # "already exists" / "does not exist" answers of bessd are the outcome the caller wants
+                iff = enclosing(brk, ast.If)
+                if not in_else and iff is not None and "errno." in ast.unparse(iff.test) and enclosing(brk, ast.ExceptHandler) is not None:
+                    in_else = True
+                r.check(in_else, "R20.9", f"{BC}.{name}", "the retry loop is left early only after a successful attempt", m.pos(brk), "break in the try's else branch",
+                        f"`break` at line {brk.lineno} leaves the retry loop outside the success branch: the for-else that raises after the last failed attempt is skipped, {name} returns normally although BESS never accepted the command")
+    r.floor("R20.9 retry loops that raise when exhausted", n_loops, 2)
+
+    # ------------------------------------------------------------------ R20.10
+    # who may drop waiting routes: resolution (after installing them) and the delete path (the deleted route only)
+    allowed_droppers = {"add_unresolved_new_neighbor", "_forget_unresolved_route", "reconfigure", "cleanup"}
+    n_drop = 0
+    for name, f in m.classes[RC].items():
+        for c, k, n in cache_accesses(f):
+            if c == UN and k in ("del", "call:pop", "call:popitem", "call:clear", "elemcall:remove", "elemcall:pop", "elemcall:clear"):
+                n_drop += 1
+                r.check(name in allowed_droppers, "R20.10", fn(f), "waiting routes are dropped only when they are installed or deleted", m.pos(n), name,
+                        f"{name} removes entries from the pending cache ({k}): routes that wait for this next hop are discarded without being installed")
+    r.floor("R20.10 removals from the pending cache", n_drop, 2)
+
     # ------------------------------------------------------------------ R20.8
     for f in (add_new, add_unres):
         env_f = single_assignments(f)
